@@ -7,461 +7,11 @@ NOTE_COMMON = ("trusted: Lean 4.33 kernel (axioms propext/Classical.choice/Quot.
                "the hand-written model, tied to /repo's working tree by running model and implementation on the same "
                "generated + corpus operations on every run; the Go toolchain; the harness. ")
 
-P = {
- "C01": dict(
-  text="89 Lean theorems about the executable models of every arithmetic, ordering and bit method of num.Uint128 and num.Int128 "
-       "(hi/lo words as BitVec 64, math/bits by its contracts, the six division entry points and three kernels transcribed "
-       "separately, dispatch threshold from the regenerated Facts): add/sub/inc/dec/mul and their 64-bit forms = the operation "
-       "mod 2^128, all comparison predicates = the order on toNat/toInt, and/or/xor/not/andNot on BitVec 128, shifts for every "
-       "count, bit queries incl. onesCount_spec, division by zero panics and nothing else does, divMod_spec unconditionally "
-       "(both Knuth kernels proved: divmod128by64 through the correction-loop invariant, divmod128by128 through the estimate "
-       "lemma q <= qhat <= q+1; the binary kernel; the dispatch), q*n+r = u, signed layer (neg/abs/Min fixed points, tdiv/tmod "
-       "incl. Div64). SECOND TIE (translator): on every run go/packages+SSA (gossa/ssagen) regenerates Lean definitions of the 80 "
-       "loop-free functions of xmath/num from the working tree (lean/Generated/SSA_Num.lean) and Props/C01Gen.lean proves each "
-       "regenerated definition equal to the verified hand-written model (94 theorems incl. transported specs), so the spec "
-       "theorems are re-checked against what the code says now; a changed function breaks its equality proof by name. ~200k "
-       "lines per quick run; a second pass histograms dispatch path x correction counts and fails if a path stops being reached.",
-  note="math/bits contracts (Add64, Sub64, Mul64, Len64, LeadingZeros64, TrailingZeros64, OnesCount64) are trusted as documented; "
-       "the SSA translator (gossa, ~1000 lines of Go over golang.org/x/tools/go/ssa) is trusted to render loop-free integer "
-       "SSA faithfully (it fails safe: an untranslatable or changed function breaks a proof); the division entry points and "
-       "kernels (panics, loops) are outside the translated fragment and tied by the differential run only; a harmless rewrite "
-       "that re-routes a math/bits call can break an equality proof and is then reported without a failing input; the "
-       "float/big.Int/string conversions belong to C02.",
-  ref="DESIGN.md section 5 C01"),
- "C11": dict(
-  text="33 Lean theorems about the heap model of errs.Error (nodes with message/cause/next, Append transcribed with its cursor, "
-       "node-by-node copy and write log; Wrap/WrapTyped/Unwrap/NewWithCause/ErrorOrNil) and of its rendering (Model/ErrsFmt.lean: "
-       "%s, %q, Detail, the Caused-by structure of %v/%+v, the recorded stack as an abstract token = creating function + capture "
-       "serial): append_items, append_nil_iff, append_written / append_frame / append_args_unchanged (NO argument is mutated - "
-       "every argument, since fix f2f6175), append_chain, count_eq, wrapped_errors_eq, wrap_reaches_cause, reachable_wf incl. "
-       "WrappedErrors elements, append_items_alias (content law under any aliasing), message_of_items / append_message, "
-       "stacks_never_change, append_stacks / append_stacks_fresh (the stacks along an Append result are the accumulator's, then "
-       "copies keeping their source's stack, then wrappers captured by this call). Histories over named variables print every "
-       "variable after every call, so mutation of arguments and pointer identity are compared; on every render line the real "
-       "%v/%+v with each block of frame lines replaced by creator.serial must equal the model's text.",
-  note="wrap_nil / wrapTyped_nil / wrap_idempotent / error_or_nil / capture_records_creator / copy_keeps_stack / "
-       "caused_by_structure are unfoldings of the transcription (tied to the code by the correspondence run); implementation-"
-       "only (oracle): frames below the creating function, file:line text, errors.Is/As, Unwrap() []error, Recovery, slog; heaps "
-       "after CloneWithPrefixMessage of an aggregate are outside the WF invariant (shared tails; correspondence only); each "
-       "Append argument is read as the value it has when consumed (Append(a,b,a) has four items - reading, Appendix B).",
-  ref="DESIGN.md section 5 C11, section 0"),
- "C02": dict(
-  text="37 Lean theorems about executable models of the Uint128/Int128 conversion surface and of IEEE binary64 (GoSem/F64.lean, "
-       "floats as data, rounding by exact integer arithmetic): String/parse and unmarshal round trips, Scan (text printed with %d %b %o %O %x %X - any sign form, any zero padding, every "
-       "value of both types, lower and upper case, hexadecimal digit e included - reads back with the same verb; other verbs = "
-       "FromString), both Int64() accessors, fromString_rejects (the "
-       "text is accepted iff it is an integer literal of the declarative grammar, plain and exponent forms, value stated over Q), "
-       "FromBigInt exact-or-saturates and AsBigInt identities, the five narrowing predicates iff the As* conversion preserves "
-       "the value, FromFloat64 = truncation in range / nearest bound outside / NaN to 0 with no implementation-defined "
-       "conversion ever evaluated, AsFloat64: sign and zero-ness for all 2^128 values of both types, exact below 2^53, and "
-       "within one unit in the last place (both of the result's and of the exact value's binade; tight, relies on ties-to-even). "
-       "~500k lines per quick run incl. f64op lines validating the float model against the hardware.",
-  note="Scan and Unmarshal*: what the methods do with a token/text (scanText, FromString, receiver kept on error) is modelled "
-       "and proved and compared per line (areas scan, conv); fmt's tokenisation, widths and flags, Format (delegated to "
-       "big.Int.Format), encoding/json and yaml.v3 dispatch, ToBigInt onto a used destination and AsBigFloat are an "
-       "implementation-side identity oracle against math/big (no theorem); the 32-bit big.Word branches are not modelled "
-       "separately but are run against the same model and oracle on a GOARCH=386 build; math/big and strconv grammars transcribed from go1.24.2 (incl. math/big's exponent limits: an "
-       "exponent literal beyond them is rejected rather than saturated - reading, Appendix B).",
-  ref="DESIGN.md section 5 C02"),
- "C09": dict(
-  text="53 Lean theorems about the executable byte-level model of eval's parser and evaluator (nextOperator with the e- hack "
-       "for signed exponents e-/e+/E-/E+ restricted to numeric literals, two-stack reduction with the evaluator state explicit between calls, function capture "
-       "by parenthesis counting, NextArg, replaceVariables, TrimSpace) and of the FIXED-POINT evaluator's values "
-       "(Model/EvalFixed.lean: FixedFrom for every operand kind through C04's literal parser, the operators || && == != < <= > "
-       ">= + - * / % with their string fall-backs and the configured division by zero, signs, abs ceil floor round max min if, "
-       "all arithmetic being C03's F64 operations): precedence_table on the regenerated operator tables, parse_render and "
-       "evaluate_render for the full expression language in every blank layout, fixed_value_render (Evaluate of a rendered "
-       "well-formed expression = value of its tree, for D1..D16, both division-by-zero settings, every layout) and "
-       "fixed_value_render_vars (the same with variables answered by literals, at top level and inside call arguments), "
-       "fixed_evaluate_no_panic (every byte list, every Dk), "
-       "fixed_operators_are_f64 / fixed_operators_exact (composition with C03's exactness theorems), div_by_zero_configured, "
-       "sign_on_literal / sign_applies_to_operand_value, whitespace_irrelevant, reuse_eq_fresh for EVERY old evaluator state "
-       "with reuse_after_any_history and the contrast reset_is_needed, parse_no_panic and evaluate_no_panic / evaluate_total "
-       "for every byte string and every resolver whose answers contain no '$' (explicit step budget). Ties: stateful structural "
-       "differential against a real Evaluator with symbolic functions; fxval stream (the model COMPUTES the result text of "
-       "whole expressions for several configurations, compared directly with the code); tree-walk value oracle over ten real "
-       "evaluators (leaf literals converted independently); whitespace/precedence oracle.",
-  note="opaque in the model (values taken from the implementation, tied by the val stream's independent reference): exponent "
-       "literals inside the fixed evaluator, ^, sqrt cbrt exp exp2 log log10 log1p, and the float evaluators altogether; "
-       "resolver hypothesis: answers contain no '$' (replaceVariables re-scans its own output, so a self-referential resolver "
-       "never returns - outside 'resolvers mapping variables to literals', Appendix B); after a REJECTED expression the model "
-       "continues from a fixed placeholder state rather than the true leftover stacks (the theorem covers every old state, the "
-       "driver threads the true state only after successful evaluations); a variable answered by a NEGATIVE literal inside call "
-       "arguments is outside evaluate_render (it is re-parsed there as a sign on the literal; covered at top level and "
-       "empirically); wrong-arity calls are outside 'well-formed'.",
-  ref="DESIGN.md section 5 C09, section 0"),
- "C13": dict(
-  text="34 Lean theorems. tracelog: the bytes of a record proved equal to a declarative line specification (format_spec, "
-       "format_flat, stack_lines_follow), derivation isolation (WithAttrs/WithGroup never affect the parent; the append-in-place "
-       "variant is refuted); SYNCHRONOUS mode proved linearizable under every schedule by instantiating the generic mutex "
-       "machine (sync_records_never_interleave, sync_preserves_goroutine_order, sync_returns_sink_error; without the lock "
-       "\"ab\" and \"cd\" reach the sink as \"acbd\"); BUFFERED mode proved on a small-step protocol (N producers, one delivery "
-       "goroutine, channel of capacity BufferDepth, any scheduler): buffered_never_blocks (a Handle call is two of its own "
-       "steps, always enabled), buffered_no_tear_no_dup, buffered_drop_only_when_full, per-producer FIFO, "
-       "buffered_payload_stable (buffer.Bytes() as a reference read at Write time: a fresh buffer per call is what makes the "
-       "queued line immutable; a reused buffer is refuted). multilog: fan-out to exactly the enabled children once, "
-       "fanout_survives_panics in a propagating-panic semantics (a recover frame around the whole loop is refuted), "
-       "handle_nil_iff_heap (the returned value is nil exactly when every delivery returned no error - proved on the errs heap, "
-       "typed nils and aggregates included), children's error values never modified (handle_keeps_child_errors). Ties: log "
-       "histories over derivation trees with scripted children returning errors of 26 dynamic kinds; sched scripts (forced "
-       "schedules with a controllable sink: the real outcome must be in the set the model computes); a -race stress oracle.",
-  note="that the code IS these protocols is DECIDED on every run about event tables regenerated from the typed SSA form of the "
-       "working tree (gossa/lockfacts -> Generated/Lock_tracelog.lean -> Props/C13Lock.lean: a caller's goroutine writes the sink "
-       "only where no delivery channel exists and then under the mutex on all paths; on the buffered path it does one "
-       "non-blocking send holding nothing; one go statement; no handler field is written after construction), the extractor "
-       "being trusted; isolation, no-tear and fan-out-continues hold by the shape of the "
-       "transcribed code, with contrast variants showing each failure is expressible; stack-trace lines follow only when no "
-       "WithGroup is in force (reading, Appendix B); 'one line' holds unless the message, keys, group names or non-string "
-       "values contain a line feed, which the code writes raw (reading, Appendix B); a sink panic in the buffered delivery "
-       "goroutine is unrecovered (the process dies; modelled as a dead consumer); leaf renderings (%q, RFC3339, Value.String) "
-       "and stack text are tokens taken from stdlib/errs.",
-  ref="DESIGN.md section 5 C13, section 0"),
- "C14": dict(
-  text="34 Lean theorems over a syscall-level action model of safe.WriteFile/safe.File including CreateWithMode's name check "
-       "(filepath.Clean/Dir transcribed), CreateTemp's naming and O_EXCL retry loop (random numbers as a parameter stream, at "
-       "most 1000 attempts, ErrExist with the directory unchanged), bufio's sticky error, three callback behaviours, callback "
-       "error or panic, a fault on any write/flush/close/rename and a failing unlink of the cleanup, for every initial "
-       "directory, umask, mode, buffer size, piece list, fault and kill point: dest_old_or_new_at_every_prefix, "
-       "rename_after_all_bytes, failure_clean, commit_result, close_commit_idempotent, history_dest_old_or_new for arbitrary "
-       "File API histories, create_touches_no_existing_entry, create_gives_up_after_1000, full_dest_old_or_new, "
-       "full_failure_leaves_only_the_temp, full_commit_result, and for the complete File API full_history_dest_old_or_new / "
-       "full_history_failure_leaves_only_the_temp / full_history_commit_result with a failing unlink, unlink_error_reporting, "
-       "no_clash_unless_lookalike. Tied by in-process differential streams (api, wf, paths, dest, and collide: REAL name "
-       "collisions with crypto/rand.Reader pinned - 0..1000 existing candidate names skipped untouched, ErrExist after 1000, the "
-       "excluded safe<n> self-collision reproduced) and an exhaustive strace enumeration (syscall sequences, injected errno on every "
-       "write/close/rename/unlink, EEXIST on the first 1, 2, 999, 1000 temp opens, SIGKILL on entry to every syscall incl. the "
-       "cleanup and panic-unwind paths); the buffer size is measured from behaviour.",
-  note="assumed: POSIX rename atomicity, page-cache survival after SIGKILL, kernel umask arithmetic, no short writes; excluded "
-       "by hypothesis and shown by example: an absent destination whose name is itself a candidate safe<digits> hit by the "
-       "random draw (2^-63 per attempt); with a failing unlink the temporary file necessarily remains and Commit/WriteFile "
-       "return the earlier error (a double fault the code cannot avoid; transcribed); two faults in one failure path are "
-       "checked by a harness-judged strace oracle only; directory, symlink and dangling destinations are encoded by the driver "
-       "as flag bits and environment rules: exercised against the code but outside every theorem; if strace is unavailable "
-       "the trace stream is skipped and the evidence says so.",
-  ref="DESIGN.md section 5 C14, section 0"),
- "C16": dict(
-  text="38 Lean theorems about a protocol model in which controller.lock is part of the state (RL.Step: separate lock / body / "
-       "unlock steps for the ticker goroutine and for root Close - lock, mark, unlock, send on the unbuffered done - and lock + "
-       "body-and-unlock steps for every other call), over all trees, request streams and interleavings: cap bounds with SetCap "
-       "anywhere (granted in period p <= the largest cap in force during p, for the limiter and each ancestor; without SetCap so "
-       "far <= cap), Go-int exactness up to MaxInt, lastUsed_spec, exactly-once answers, nil only with a logged grant, never a "
-       "grant on a closed limiter, immediate errors incl. an amount above ANY cap of the chain "
-       "(use_above_chain_cap_fails_at_once), a queued request fails at the next tick after SetCap on its limiter or an ancestor, "
-       "FIFO service with every tick answering the head of the queue, every_request_answered (on runs on which ticks keep "
-       "being served every waiting request gets exactly one answer), Close marks the subtree and fails pending requests, "
-       "lock_discipline (mutual exclusion; the goroutine blocked on done does not hold the lock), close_returns (no reachable "
-       "state is deadlocked; any holder can release the lock), ticker_never_blocked, api_call_returns, termination of Close under "
-       "scheduler-only fairness (holders run, mutex fair to the ticker, select fair) with a witness run (fair_run_exists), and the "
-       "CONTRAST unrepaired_close_deadlocks: in RL.StepU (send while holding the lock, the code before its fix) a deadlock is "
-       "reachable. Tie: lock-step bursts through the fused scheduler RL.exec (proved to take only steps of the relation); "
-       "forced schedules of the Close-vs-tick window (the model giving the set of outcomes of all interleavings); a model-free "
-       "stress oracle in child processes, also under -race.",
-  note="that every access of the Go code to the waiting list and to a limiter's children/capacity/used/last/closed - callers and "
-       "ticker goroutine, through every helper - happens under the one controller lock on ALL paths, that the lock is never "
-       "re-acquired and that the blocking send/receive on done happen with the lock free is DECIDED on every run about tables "
-       "regenerated from the typed SSA form of the working tree (gossa/lockfacts -> Generated/Lock_rate.lean -> "
-       "Props/C16Lock.lean), the extractor being trusted; Go scheduler/select/mutex fairness only as hypotheses about the scheduler; timing-ambiguous bursts are discarded as "
-       "inconclusive, never failed; answered/glog/capMax are history fields written by the model in the same step as the action "
-       "they record (that the code's critical sections do the same is the transcription, checked by the tie); answer channels "
-       "are not modelled as channels; read locks are treated as exclusive; LastUsed is specified for limiters still linked into "
-       "the tree; TicksServed (ticks keep being served until the final drain) is an assumption about time and the scheduler, not "
-       "derived from the fairness hypotheses; a black-box fallback build (private identifiers renamed) observes ticks through "
-       "the public API on a hidden limiter that the model mirrors, and skips the window area.",
-  ref="DESIGN.md section 5 C16, section 0"),
- "C04": dict(
-  text="55 Lean theorems about the executable byte-level model of String/StringWithSign/Comma/CommaWithSign/FromString (plain "
-       "branch)/Unmarshal*/txt.CommaFromStringNum/txt.Comma of integers/txt.Unquote/integer As and CheckedAs of f64.Int and "
-       "f128.Int, and of float As/CheckedAs at the instance GoSem.F64 (Model/FixedTextFloat.lean: ParseFloat as correctly rounded "
-       "conversion of the denoted rational, FormatFloat(-1) as a search for the first text by digit count that parses back): "
-       "toString_exact and toString_canonical, fromString_toString for every raw value incl. Min and every configuration of the "
-       "regenerated table, comma and with-sign forms parse back, fromString_literal (every plain literal whose truncated value "
-       "is representable gives that value truncated to D places), fromString_total (range of every parse result), the dispatch "
-       "(the float detour is taken iff the text contains e/E: fromString_exp_iff(128), literal_never_float_path, "
-       "renderings_never_float_path), integer CheckedAs in closed form (checkedAs_signed_iff64, checkedAs_narrow_unsigned_iff64, "
-       "checkedAs_u64_iff64, checkedAs_all_iff128, and the f64/f128 difference on uint64 as a theorem pair), as_int_same_as_C03, "
-       "float CheckedAs at the executed instance (parseFloat_toString, formatFloat_roundtrip, checkedAs_float_go64: f64 CheckedAs "
-       "returns x iff x is the nearest float and its shortest text is the number's own text; checkedAs_float_go128_sound). ~313k "
-       "lines per quick run over all 16 configurations of both types, incl. a stream fltm comparing float As/CheckedAs bit for "
-       "bit with the code and the two Lean definitions with strconv.ParseFloat/FormatFloat themselves.",
-  note="float CheckedAs: minimality of the formatFloatGo text (no shorter text parses back) and nearest-ness of ofRat are not "
-       "proved; they are tied to strconv by the pf/ff streams; four earlier theorems over uninterpreted stdlib functions are "
-       "schematic and do not carry the clause; f128 completeness is not proved (soundness only); a big.Rat oracle (float) stays "
-       "as a second opinion; exponent literals are not plain literals (Appendix B) and stay outside the model (exp oracle: no "
-       "panic, FromString = From(ParseFloat), entry points agree); encoding/json and yaml.v3 round trips are an identity oracle; "
-       "literals whose value is not representable wrap (f64) or saturate (f128) and are compared model-vs-code only (reading, "
-       "Appendix B); f64 CheckedAs to uint64 kinds accepts negative whole numbers because converting back yields the original "
-       "(now a theorem: checkedAs_u64_f64_vs_f128).",
-  ref="DESIGN.md section 5 C04, section 0"),
- "C05": dict(
-  text="Translation validation: the clipper is not modelled; every individual call of the real Union/Intersect/Sub/Xor (float32 "
-       "and float64) is judged by an executable Lean even-odd oracle in exact dyadic arithmetic whose soundness is proved "
-       "(23 theorems about the definitions the driver runs): validateLattice_sound (+ outside the square, + emptiness) makes the "
-       "per-call verdict universal over all points of all open cells for rectilinear lattice inputs; validateGeneral_sound / "
-       "validatePoints_sound / clear_not_on_edge for general-position inputs on sample points (also taken from the result's own "
-       "interior) that provably keep a margin from every edge; emptyCert_sound + resultEmpty_no_region: where the combined "
-       "region is certified empty (operands separated by an axis-parallel line or by the line through one of their edges - every "
-       "pair of disjoint convex contours, overlapping boxes or not -, identical operands for Sub/Xor, a covering axis-parallel "
-       "rectangle for Sub, an operand without edges) the result must be empty and the law then holds at every point "
-       "(sepLine_sound, noContact_disjoint_partial, validateGeneral_judged); decodeBits_exact / decodeBits_none_iff (the float decoding "
-       "is exact for every finite bit pattern), inside_int_iff_rat, inside_scale/translate, xor_concat, inside_rotate/reverse. "
-       "~102k calls / 7.0M judgements per quick run (5.1M exhaustive cells, 2.0M sample points; ~9800 general-position calls "
-       "of which ~3100 certified-empty and ~990 judged-empty); operands deep-compared, panics caught.",
-  note="nothing universal about the clipper over inputs is proved; lattice calls are decided exhaustively per call, general-"
-       "position calls are judged on sample points only (100 candidates per call plus about 60 from the result, margin 1/64 or "
-       "1/1024); 'empty when the region is empty' is exhaustive on lattice calls and on sampled calls required only where "
-       "emptyCert certifies emptiness; beyond the proved certificate the validator applies the exact general judgement noContact "
-       "(Intersect: boundaries do not meet and no vertex of one operand is inside the other) and containedIn (Sub) and demands an "
-       "empty result: the soundness of that judgement is a topological fact that is STATED, NOT PROVED (proved only for "
-       "line-separated operands) - were it false the effect would be false alarms, not misses; points on lattice lines are not judged; a call with no judged point is counted as "
-       "unjudged, never as validated; KNOWN FINDINGS (known_findings.json, 9 fixed inputs in corpus/C05/degenerate.known.ops): on "
-       "degenerate non-rectilinear lattice inputs the clipper panics or returns wrong regions, and on one sub-epsilon input it "
-       "panics - the repair is not a small patch. Inputs whose coordinates are all below the clipper's ABSOLUTE epsilon of 1e-5 "
-       "(the lattice and general-position families scaled by 2^-20) are outside the reading of 'a margin'/'the lattice' "
-       "(Appendix B) and are run as counted observations only (the real code gets most of them wrong).",
-  technique="per-call validation by a Lean oracle with a proved soundness theorem (translation validation)",
-  ref="DESIGN.md section 5 C05"),
- "C06": dict(
-  text="24 Lean theorems about a functional model that performs the same rotations and recolourings as the Go loops (validated "
-       "node for node through a -overlay dump): run_inv (red-black invariants after every history, any compare function), "
-       "height_le 2*log2(n+1), insert_inorder (stable insertion), remove_inorder (erases the FIRST equal entry), inorder_run/"
-       "count_run (refinement to the sorted association list), get_first, first_last, traverse and traverseFrom specs with the "
-       "visitor cut, comparison-count bounds (find <= height, insert <= height+1). fixups_never_dereference_nil (a partial model with Option-returning accessors exactly at the Go "
-       "dereference sites - sibling, nephews, parent, grandparent, uncle, pivots - never hits none after any history, for "
-       "every compare function; contrast trees violating black-height equality do). ~1.5M operations per quick run; exact "
-       "compare counts are not compared: the harness judges the REAL count of every operation against the bound proved for "
-       "the model plus the property's allowance - Get/Remove <= 2*floor(log2(n+1)) + E + 1, Insert <= 2*floor(log2(n+1)) + 1 "
-       "(n = entries before the operation, E = entries comparing equal to the key).",
-  note="compare assumed a total preorder (explicit hypothesis, proved for the driver's two modes); parent pointers and Go "
-       "recursion depth are outside the model (parent links checked at run time by the overlay's inv op); shape/count "
-       "observables are model detail: a mismatch only there is reported without a concrete failing input; visitors may stop, "
-       "keep state, panic or call read-only methods - a visitor that calls Insert/Remove on the tree it is traversing is "
-       "outside the theorems and the correspondence run; the white-box accessor adapts to renamed private fields and falls "
-       "back to the exported Dump() text (parent links then unchecked).",
-  ref="DESIGN.md section 5 C06"),
- "C10": dict(
-  text="33 Lean theorems about the executable byte-level model of CmdLine.Parse (option table construction through every "
-       "declaration route, three-state scanner incl. the lone '-' as first positional, rune-aware short-option loop, @file "
-       "expansion with the seen guard) and of the OPTION VARIABLES (setVar: a case-by-case transcription of GeneralValue.Set - "
-       "ParseBool's table, all ten integer kinds through the model's own base-0 parser with prefixes, underscore rule and the "
-       "kind's bit size, strings, slices appending - threaded as a store the driver prints): parse_render for every valid "
-       "spelling and arbitrary rune names, positional_tail_verbatim, bare_dash_is_first_positional, set_semantics, "
-       "variable_is_fold_of_its_sets, scalar_last_successful_set / last_assignment_wins, slice_appends, unmentioned_untouched, "
-       "variables_after_parse, response_split / response_inline, malformed_fatal. Each line declares options over all 28 "
-       "pointer types; possibly-malformed vectors run in a child process and the exit path is observed.",
-  note="float and duration acceptance is taken from strconv/time results computed by the generator (parameter of the model); "
-       "a first positional that starts with '-' (other than a lone '-') or with '@' without a preceding '--' is an option or "
-       "response file by construction; an @file reference in value position is taken literally (observation); response-file "
-       "lines of 64 KiB or more and arguments containing LF are outside the domain; response_split requires FilesNoRef over "
-       "all files (stronger than needed).",
-  ref="DESIGN.md section 5 C10, section 0"),
- "C12": dict(
-  text="35 Lean theorems about the state machine of rotation.Rotator (Write with its retry as a step function, the rename "
-       "chain, Close, re-open with size from Stat, New with options and regenerated defaults, histories in segments each with "
-       "its own limits): write_terminates (<= 2 passes), write_whole, retained_is_suffix over every history, retained_whole "
-       "until more than MaxBackups+1 files are filled, size_bound, backup_count, preexisting_appended, restart theorems "
-       "(size_bound_across_restarts, backup_frame_across_restarts, retained_is_suffix_across_restarts), "
-       "current_file_exists_at_write. CONCURRENCY: a generic mutex machine (Model/Mutex.lean, Lemmas/MutexLin.lean: threads "
-       "running operations bracketed by one mutex, micro-steps on shared state, any scheduler) is proved linearizable, "
-       "mutually exclusive, deadlock-free and schedule-bounded, and instantiated with Write/Sync/Close split into their "
-       "syscall-level micro-steps: concurrent_writes_never_interleave, concurrent_complete, concurrent_bounds, "
-       "concurrent_progress, concurrent_returns_in_bounded_time; contrast: without the bracket concrete schedules tear a "
-       "record (unbracketed_writes_tear) and break the size accounting. Every Write runs under a deadline (a hang is an output, "
-       "not a hung check); the whole directory (position-dependent record bytes) is compared after every operation.",
-  note="the concurrent_* theorems are about a machine bracketed BY CONSTRUCTION: proved for the bracketed model, observed (not "
-       "proved) for the code. That rotator.go really takes the lock around every method is DECIDED on every run about lock-state "
-       "tables regenerated from the typed SSA form of the working tree (gossa/lockfacts -> lean/Generated/Lock_rotation.lean -> "
-       "Props/C12Lock.lean: every read/write/use of the file handle and the size counter happens with the mutex held on ALL "
-       "paths, no re-acquisition; consequence bodies_never_overlap by Lemmas/LockSound.lean), the extractor (about 2000 lines of "
-       "Go over go/ssa) being trusted to bound the lock state soundly; the concrete search for a failing schedule is the stress oracle "
-       "(2-12 writer goroutines with Close and Sync alongside, judged by the theorem's conclusion: whole records, per-goroutine "
-       "order, size bound, directory equal to the sequential rule), with and without -race; file-system error paths and "
-       "WithMask are not modelled.",
-  ref="DESIGN.md section 5 C12, section 0"),
- "C15": dict(
-  text="25 Lean theorems over the threaded model of the queue (TQW.TStep: the dispatcher process() as a thread with one "
-       "program-counter value per blocking point, the in/tasks/ready channels, the backlog, and `workers` worker threads in the "
-       "loop of work() with exception semantics for panics - a panic unwinds to the deferred errs.Recovery of runTask, the "
-       "handler call is a step of its own, an unrecovered panic would terminate the thread), for all worker counts >= 1, all "
-       "depths, handler installed or not, all task sets, panic patterns and interleavings: refines_protocol (the shared part is "
-       "simulated by the 22-rule dispatcher protocol TQ.Step), conservation, exactly_once, running_le_workers (derived: only "
-       "worker threads execute tasks, one at a time), dispatcher_index_safe, counter_equation, fifo / fifo_single_worker, "
-       "no_worker_dies, panic_always_recovered, panic_reported_once, no_deadlock, shutdown_after_all_done/_all_reported, "
-       "shutdown_returns (a variant decreases on every rule after Shutdown, no fairness needed). Contrast theorems with concrete "
-       "schedules show the clauses fail for programs outside the class: no recover in runTask (worker dies), a dispatcher that "
-       "runs backlog tasks (Workers+1 executing), tasks that Submit to their own queue (deadlock). The executable tnext is proved "
-       "equal to TStep and is what the driver runs: forced schedules (tasks blocked on release channels) compare the real "
-       "queue's quiescent observable - for one worker including start and finish order - with the model's over all "
-       "interleavings, under GOMAXPROCS 1 and default.",
-  note="Domain: tasks end, by returning or by panicking (runtime.Goexit in a task terminates its worker without a completion "
-       "signal and Shutdown never returns: observed, outside the domain); Submit is not called with nil, nor after or "
-       "concurrently with Shutdown (a Submit blocked on a full `in` when Shutdown closes it panics); tasks do not Submit to the "
-       "queue that runs them (on a bounded queue this deadlocks deterministically - inherent to blocking at Depth; modelled as "
-       "Variant.nest: the safety theorems cover it, the liveness theorems exclude it). Panic values are abstracted in the model "
-       "and varied by the harness over ten kinds; the `in` capacity is a model parameter, injected as 1..5 in the forced area by "
-       "an overlay and the real 2*NumCPU runs only in stress; for Workers > 1 the forced tie compares sets; random schedules are "
-       "judged by a model-free stress oracle in child processes (crash or hang = violation with the configuration as replay); Go "
-       "scheduler fairness is outside the model and is not needed by shutdown_returns.",
-  ref="DESIGN.md section 5 C15, section 0"),
- "C19": dict(
-  text="45 Lean theorems. Model: a file system that follows symbolic links as the kernel does (Ex.walk; os.MkdirAll and "
-       "internal.EnsureNoSymlinks transcribed call by call), both extractor loops and the six exported wrappers over it; this "
-       "is what the driver executes against the real code on whole trees, including a destination that is itself a link. "
-       "Proved: with the guard every call acts at its lexical path (resolving_is_lexical), hence containment of nodes, "
-       "contents and hard links on the link-following file system for every archive and every real tree in which no proper "
-       "ancestor of the destination is a file or a link (missing ancestors are allowed, MkdirAll creates them) and the "
-       "destination itself is not a link (extract_contained_resolving, extract_contained_inodes_resolving); the same loops WITHOUT the "
-       "guard calls escape (guardless_escapes, concrete archives); exact reproduction of well-formed archives into an empty or "
-       "missing destination (tar and zip); for any pre-existing tree an error-free run is exactly the overlay of the archive "
-       "on the old tree (extract_overlay: skipped type flags contribute nothing, ./ entries, existing files rewritten with "
-       "their mode kept, a late-listed directory keeps the mode of the first MkdirAll); every failing iteration characterised "
-       "by look-ups in the tree (step_error_tree_iff, guard_error_iff) and what it leaves (failed_step_effect); re-extraction "
-       "(reextract_identity, reextract_link_fails); error propagation for truncated, corrupt, unwritable and unopenable "
-       "entries.",
-  note="privileged process: permission bits never make a call fail in the model or in the correspondence run; for an ordinary "
-       "user 'no error' needs owner write and search permission after masking on every directory that later receives a child. A "
-       "PRE-EXISTING hard link inside the destination to an outside file: a regular entry on it replaces the outside file's "
-       "content, mode and everything else stay (existing_file_rule; Appendix B). A destination that is ITSELF a symbolic link "
-       "(chains of 40 links are followed, 41 give ELOOP, as the kernel) and a destination below a LINKED ANCESTOR (the real code "
-       "and the resolving model extract into the physical place): differential run only, area dstlinkm, no theorem (containment "
-       "relative to the physical root is not proved). A missing parent of the destination is inside the theorems and is run. Not "
-       "modelled: NAME_MAX/PATH_MAX/NUL; node types other than directory, regular file and symbolic link (a pre-existing fifo, "
-       "socket or device at an entry path: open on a fifo without a reader would hang); a destination /; races; the archive/tar "
-       "and archive/zip readers (the model sees the entries they yield). The zip root test fi.IsDir() versus kind = dir differs "
-       "only for a symlink-bit entry named ./ (an error in both; not generated); umask set to 0 by the harness.",
-  ref="DESIGN.md section 5 C19, section 0"),
- "C03": dict(
-  text="145 Lean theorems. Props/C03.lean (60) about the executable model Model/Fixed.lean + Model/FixedFloat.lean of f64.Int/"
-       "f128.Int (raw values as integers with Go's wrap-around): Add/Sub exact; Mul/Div = exact result truncated toward zero "
-       "under the representability hypotheses (result and intermediate product); Mod = a - b*trunc(a/b) for EVERY operand pair "
-       "with a non-zero divisor (no intermediate-product hypothesis; the result always fits); Trunc/Ceil/Round (halves away from "
-       "zero, both signs); Abs/Neg/Min/Max/Inc/Dec/comparisons; f64/f128 agreement; integer From/As for every machine kind; "
-       "Fraction; 10 theorems on float From/As over the binary64 model; restatement over Q; for every configuration of the "
-       "regenerated multiplier table (multiplier_table: each = 10^places). The model is run against all 16 configurations of "
-       "both types on ~750k operations per quick run: areas fx (in-hypothesis, judged), fxwrap (overflow / zero divisor, model "
-       "drift only), fxfloatm (float paths bit for bit against the model), fxfloat (exact-rational oracle of the literal bound), "
-       "fxcfg, plus a direct f64/f128 twin comparison. TRANSLATOR TIES: on every run gossa/ssagen regenerates Lean definitions of "
-       "the integer functions of xmath/fixed + xmath/fixed/f64 (Generated/SSA_F64.lean; Props/C03Gen.lean, 55 theorems over "
-       "BitVec 64, wrap-around included; the type parameter becomes a dictionary (Multiplier, Places)) and of xmath/fixed/f128 "
-       "(Generated/SSA_F128.lean; Props/C03Gen128.lean, 30 theorems, calls into num.Int128 tied through C01Gen to the C01 model) "
-       "and proves each equal to the hand-written model.",
-  note="the SSA translator (gossa) is trusted to render the integer fragment faithfully; From/As/CheckedAs, text methods and "
-       "Fraction are outside the translated fragment (correspondence only); a function of the committed list "
-       "lean/Generated/expected_*.txt that a change moves outside the fragment is reported as 'translator tie lost' (a VIOLATION "
-       "ending in no-failing-input-found unless the differential run supplies an input). Float From/As for the float64 kinds: "
-       "modelled and bounded by theorem under named contracts of strconv.ParseFloat, big.Float.Quo/Float64/Text and the C04 "
-       "text; only the float32 kinds have no bound theorem (modelled and compared bit for bit; literal bound judged by the "
-       "big.Rat oracle with relative part 2^-23). Wrap-around of non-representable results and division by zero are compared "
-       "model-vs-code only (recorded as model drift, never a violation); Mod is not among them: every Mod with a non-zero "
-       "divisor is judged. f64.From of an unsigned source >= 2^63 lies outside every theorem (never representable; Appendix B). "
-       "With build tag nooverlay (white-box accessor does not compile against the tree) f128 raw values go through "
-       "String()/FromString - exact, recorded as overlay_fallback.",
-  ref="DESIGN.md section 5 C03, section 0"),
- "C07": dict(
-  text="25 Lean theorems, generic over rectangle laws proved from C18 and instantiated at Int and Rat: after any history the ids "
-       "reported by All equal the specification's multiset (abs_run, size_run), each of the 8 Find* queries (plain and matched) "
-       "equals the filter of the stored nodes by the geom predicate, each boolean query is true iff its Find* is non-empty, "
-       "insert/remove node-level refinement, split_depth_rat / reorganize_depth_rat (depth logarithmic in root width over smallest "
-       "item width), fuel_suffices_int / fuel_independent_int (results do not depend on the fuel once it exceeds "
-       "width+height of the root box; the driver additionally checks at run time that its fuel was never exhausted, since "
-       "its histories contain boxes larger than its fuel). The model (outside list, "
-       "auto-Reorganize, swap-remove, thresholds) is run against quadtree over int and float64 (exact dyadic inputs).",
-  note="the same node inserted twice is two entries; nodes whose Bounds change while stored are outside the contract "
-       "(hypothesis OpOK); integer coordinates are modelled as unbounded (machine overflow of X+Width is outside the "
-       "theorems); float rounding is outside the exact-arithmetic theorems: the fractional-float clause is evidenced "
-       "by the floatscan oracle (non-dyadic floats vs a linear scan with the library's own predicates); the theorems transfer to "
-       "Go ints for histories where every stored and query rectangle has X+Width and Y+Height within int64 and the union of "
-       "the stored rectangles is narrower than 2^63 - outside that domain the evidence is the intwrap oracle (histories near "
-       "MaxInt/MinInt judged against a linear scan; predicates cross-checked against math/big); OpOK fixes one bounds function "
-       "per history (remove / change bounds / re-insert under the same id is excluded, also by the harness). KNOWN FINDINGS: 3 "
-       "inputs with float rectangles whose positive size is absorbed by rounding and 2 with int rectangles whose own X+Width "
-       "wraps (geom's Contains and Intersects become inconsistent there, so the Intersects-based pruning disagrees with the "
-       "scan).",
-  ref="DESIGN.md section 5 C07"),
- "C08": dict(
-  text="50 Lean theorems about the executable model of xmath.BitSet (words as BitVec 64, every loop transcribed): after every "
-       "history of all 14 mutating calls on two bit sets the members equal those of a mathematical set (run_refines) and Count "
-       "is the cardinality (count_card); the six searches return the extreme index or the sentinel; Trim, Data, EnsureCapacity, "
-       "Clone, Copy, Reset preserve the set, Load(Data()) reproduces it, Equal iff the members agree; countSetBits is the "
-       "popcount on every word (SWAR proof, kernel only). NO PANIC: a checked transcription whose reads, writes and slicings "
-       "return none exactly where Go would panic is proved to return some of the total model on every state "
-       "(all_accesses_in_bounds, _run, _queries; bounds_contrast shows it sees a missing EnsureCapacity/clamp/swap). NO "
-       "ALIASING: in a heap-of-arrays model that places every write where the code places it, the two bit sets and the caller's "
-       "slices never share storage and the heap denotes what the value model computes (heap_refines, no_aliasing, "
-       "scribble_harmless; aliasing_contrast refutes a sharing Clone, a Data returning the receiver's slice and the pre-fix "
-       "Copy(self)). RANGE MASKS: any word-at-a-time range implementation with masks MaxUint64<<startBit / "
-       "MaxUint64>>(63-endBit) equals the per-bit loops in words and count (word_at_a_time_ops, mask_contrast). The driver runs "
-       "the heap model and the checked transcription against two real bit sets with caller scribbles.",
-  note="the value model the set theorems speak about is linked to the executed heap/checked models by theorem; identity of "
-       "*BitSet values is not modelled; Go int overflow near MaxInt is outside the model; stored indexes stay below 2^20+64 in "
-       "the streams while non-allocating calls are driven to MaxInt; negative indexes terminate the process by design (domain "
-       "index >= 0); capacity growth policy is not observable through the API and deliberately not compared; countSetBits is "
-       "reached through an overlay and that area is dropped if the helper disappears; the mask library is about a shape the "
-       "code does not currently have (groundwork, and documentation of why the ind4/ind5 mutants are wrong).",
-  ref="DESIGN.md section 5 C08, section 0"),
- "C17": dict(
-  text="27 Lean theorems about the executable model of notifier.Notifier (three maps, batch level, enabled flag, a world of "
-       "notifiers): registered_spec and maps_consistent over all histories, notify_targets (exactly the targets registered for "
-       "the name or a dot-ancestor, each once), notify_priority_order, no_textual_prefix, disabled/unregistered/reset silence, "
-       "merge_spec, batch_nesting; PANICS in a propagating-panic semantics (a panic leaves every frame that does not recover "
-       "it; errs.Recovery with good, nil and panicking handler): unrecovered_panic_aborts, recovery_frame_contains_panic, "
-       "panic_does_not_stop_delivery / _batch, and the refuted variant recover_at_loop_level_refuted; CONCURRENT USE on the "
-       "generic mutex machine: concurrent_registry_linearizable (every schedule; micro-steps per loop iteration), "
-       "concurrent_callbacks_sequential, notify_delivers_snapshot / batch_delivers_snapshot (a concurrent Notify invokes exactly "
-       "the targets registered at its linearization point, once, in priority order, whatever other goroutines do), "
-       "delivery_touches_no_shared_state (unlocked delivery commutes with every other step), and the counter-example "
-       "unlocked_not_linearizable. Histories over 3 notifiers (recovery handler good / itself panicking / nil) x 128 targets "
-       "(batch-capable, panicking with 7 kinds of panic value, two re-entrant ones that call any method back from inside "
-       "HandleNotification/BatchMode), priorities up to the int limits, names up to 4 KiB / 300 segments, are run against the "
-       "Go code (black-box calls received + a rename-robust white-box dump with a black-box fallback).",
-  note="the lock discipline of the Go code is DECIDED on every run about tables regenerated from the typed SSA form of the "
-       "working tree (gossa/lockfacts -> Generated/Lock_notifier.lean -> Props/C17Lock.lean: every access to the three maps, "
-       "current batch, batch level and enabled flag under the lock on ALL paths - writes exclusive, reads at least shared - "
-       "except READS of the elements of a slice copied out under the lock; no map access unlocked; targets called with the lock "
-       "free on every path; no re-acquisition; by Lemmas/LockSound.lean no write ever coincides with another locked access), the "
-       "extractor being trusted and the snapshot element reads staying with -race. Beyond that, memory-level race freedom is not "
-       "proved: the logical half (linearizability under the lock bracket, "
-       "unlocked delivery touching only its own snapshot) is proved for the model, and the code is observed by a -race stress "
-       "run whose judge is the linearizability theorem's conclusion (a DFS must find one order, respecting program order and "
-       "real time, that explains every delivered list, BatchMode broadcast and result); snapshots are immutable values in the "
-       "model (that nobody writes a snapshot's backing array after hand-out stays with -race); RLock brackets are treated as "
-       "exclusive; re-entrant targets are transcribed by the driver, not proved; batch_nesting excludes Reset/SetEnabled of the "
-       "same notifier inside the pair; check-then-act windows of nanoseconds are detected only probabilistically.",
-  ref="DESIGN.md section 5 C17, section 0"),
- "C18": dict(
-  text="36 Lean theorems over any ordered ring/field, instantiated at the Int and Rat types the driver runs: Rect contains_iff, "
-       "intersects_iff, intersect_spec, union_covers/union_smallest, empty_absorbs; Matrix transform_multiply/translate/scale/"
-       "rotate (any sin/cos pair), identity_neutral; contour crossing-number characterisation, even-odd spec, bounds_encloses, "
-       "transform_maps_vertices. ~720k exact (dyadic) cases per quick run compared bit-exactly. SECOND TIE "
-       "(translator): on every run gossa/ssagen regenerates Lean definitions of 54 loop-free methods of xmath/geom Rect, Point, "
-       "Size, Insets and Matrix from the working tree (lean/Generated/SSA_Geom.lean; the type parameter T becomes an abstract "
-       "type with exactly the operations the body uses) and Props/C18Gen.lean proves the 25 that have a model counterpart equal "
-       "to the Model/Geom functions the theorems are about, for every such type (Contains, Intersects, Intersect, Union, "
-       "Point.In, Expand, Inset, Matrix Multiply/Translate/Scale/TransformPoint, ...), plus 3 transported corollaries.",
-  note="the SSA translator (gossa) is trusted to render the loop-free fragment faithfully; a function that a change moves out "
-       "of the fragment is reported as 'translator tie lost'. Float rounding is outside the theorems: the model-vs-code streams "
-       "use only inputs on which every float operation of the source is exact (small dyadic rationals; contour queries filtered "
-       "with big.Rat) and demand equality of the exact values. Under rounding (non-dyadic float64/float32 inputs of tiny, large "
-       "and mixed magnitudes) the implementation-side oracle floatspec judges exactly, without tolerance: Rect Contains/"
-       "Intersects/Intersect/Union and Point.In through their point-set specifications on the extreme representable points; "
-       "Contour.Bounds (every vertex In the bounds, strict) and Polygon.Bounds; Polygon.Transform (each result vertex "
-       "bit-identical to Matrix.TransformPoint of the original vertex, operand untouched, no shared storage); the identity "
-       "matrix; Contour.Contains/Polygon.Contains/ContainsEvenOdd away from edges against the exact crossing number (big.Rat; "
-       "points within 64 eps x magnitude of an edge are skipped and counted). Rotate/RotateByDegrees with libm sin/cos only "
-       "through the relative 16-ulp oracle. NOT evidenced under rounding: the composition laws of Multiply/Translate/Scale "
-       "(exact-arithmetic theorems plus exactly representable inputs only). Integer overflow of X+Width is not modelled. "
-       "'Without touching the original' is vacuous in the pure model and checked on the Go side only. KNOWN FINDINGS by call "
-       "site (specific inputs judged strictly on every run, other inputs of the class counted, not alarmed): Union/Intersect's "
-       "recomputed far edge one ulp off (4 inputs; Polygon.Bounds inherits it). Contour.Bounds' absorbed 1 was repaired in "
-       "/repo (c8f36a0).",
-  ref="DESIGN.md section 5 C18"),
- "C20": dict(
-  text="29 Lean theorems about the executable model of txt.NaturalCmp for all byte strings and both case modes: antisymmetry, "
-       "transitivity, 0 iff identical, characterisation as lexicographic order of chunk keys, digit runs by numeric value then "
-       "fewer zeros first, digits before non-digits, proper prefix first, bytewise/case-folded comparison, NaturalLess, sorted "
-       "permutation and uniqueness of the sorted result. ~150k pairs per quick run.",
-  note="slices.SortFunc is modelled by merge sort (sorted_perm_unique shows every correct sort returns the same list).",
-  ref="DESIGN.md section 5 C20"),
-}
+# one file per claimed property, owned by the builder of that property: tools/manifest.d/Cxx.json with the keys
+# "text" (level_claimed), "note" (what is NOT proved / trusted, appended to NOTE_COMMON), "ref", optional "technique"
+import os
+D = os.path.join(os.path.dirname(os.path.abspath(__file__)), "manifest.d")
+P = {f[:-5]: json.load(open(os.path.join(D, f))) for f in sorted(os.listdir(D)) if f.endswith(".json")}
 
 LEVEL = {"C05": "translation_validation"}
 
